@@ -14,7 +14,7 @@ TECHNIQUE = "runtime monitoring with an independent Fock-space reference-model o
 RULE = ("cases = trial kind x norb x (n_up,n_dn) x seed with 1-3 random symmetric Cholesky matrices; non-trivial = "
         "|<psi|phi>| >= 0.05 |psi||phi| and Green's-function denominator cond <= 1e4 (walkers redrawn up to 30 times, else "
         "skipped and counted); multi-Slater references: aufbau, random, closed-shell non-aufbau")
-MIN_NONTRIVIAL = {"quick": 120, "thorough": 1200}
+MIN_NONTRIVIAL = {"quick": 80, "thorough": 600}
 TIMEOUT = {"quick": 1800, "thorough": 9000}
 ASSUMPTIONS = ["real trial parameters, complex walkers, symmetric Cholesky matrices",
                "component-wise comparison with tolerance 1e-9 max(1, ||L_g||) / overlap-relative-size",
